@@ -35,6 +35,13 @@ class FuncRef:
         self.func = func
 
 
+class Closure:
+    """a nested function together with the environment it was defined in"""
+
+    def __init__(self, func, env):
+        self.func, self.env = func, env
+
+
 class BasisVal:
     """MatrixBasis(list of matrices) represented by the list."""
 
@@ -66,6 +73,9 @@ NP_FUNCS = {
 MATH_FUNCS = {"sqrt": math.sqrt, "exp": math.exp, "cos": math.cos, "sin": math.sin, "radians": math.radians}
 METHODS = {"conj", "conjugate", "transpose", "copy", "flatten", "reshape", "dot", "tolist", "astype"}
 MAX_STEPS = 400000
+import operator as _operator
+EXTERNAL_VALUES = {"operator.add": _operator.add, "operator.mul": _operator.mul, "operator.sub": _operator.sub,
+                   "math.pi": math.pi, "numpy.pi": math.pi, "math.e": math.e}
 
 
 class ConstEval:
@@ -77,13 +87,15 @@ class ConstEval:
         self.funcs_entered = set()
 
     # ------------------------------------------------------------------ entry
-    def call(self, func: Func, args: List[Any] = (), kwargs: Optional[Dict[str, Any]] = None, depth: int = 0):
+    def call(self, func: Func, args: List[Any] = (), kwargs: Optional[Dict[str, Any]] = None, depth: int = 0, captured=None):
         if depth > self.max_depth:
             raise NotConst("call depth exceeded at %s" % func.qualname)
         self.funcs_entered.add(func.qualname)
         a = func.node.args
         pos = [p.arg for p in a.posonlyargs + a.args]
-        env: Dict[str, Any] = {}
+        env: Dict[str, Any] = dict(captured) if captured else {}
+        for p in pos + [k.arg for k in a.kwonlyargs]:
+            env.pop(p, None)
         if len(args) > len(pos):
             raise NotConst("too many arguments for %s" % func.name)
         for p, v in zip(pos, args):
@@ -109,6 +121,33 @@ class ConstEval:
         except _Return as r:
             return r.v
         return None
+
+    def literals(self, func: Func):
+        """Tolerant pass over a function whose parameters are NOT constants: every assignment `name = <expr>` whose
+        right-hand side evaluates in the constant fragment (using earlier such bindings) is recorded, in source order,
+        with the chain of branch tests it sits under.  Statements outside the fragment are skipped.
+        Returns [(name, value, guards, node)] with guards a tuple of (test source, taken?)."""
+        out = []
+        env: Dict[str, Any] = {}
+
+        def walk(stmts, guards):
+            for st in stmts:
+                if isinstance(st, ast.Assign) and len(st.targets) == 1 and isinstance(st.targets[0], ast.Name):
+                    try:
+                        v = self.expr(st.value, env, func, 1)
+                    except NotConst:
+                        env.pop(st.targets[0].id, None)
+                        continue
+                    env[st.targets[0].id] = v
+                    out.append((st.targets[0].id, v, guards, st))
+                elif isinstance(st, ast.If):
+                    t = unparse(st.test)
+                    walk(st.body, guards + ((t, True),))
+                    walk(st.orelse, guards + ((t, False),))
+                elif isinstance(st, (ast.For, ast.While, ast.With, ast.Try)):
+                    continue
+        walk(func.node.body, ())
+        return out
 
     # ------------------------------------------------------------- statements
     def block(self, stmts, env, f, depth):
@@ -181,6 +220,12 @@ class ConstEval:
             raise _Break()
         if isinstance(s, ast.Continue):
             raise _Continue()
+        if isinstance(s, (ast.FunctionDef,)):
+            inner = f.nested.get(s.name)
+            if inner is None:
+                raise NotConst("nested function %s not indexed" % s.name)
+            env[s.name] = Closure(inner, env)
+            return
         if isinstance(s, ast.Pass):
             return
         if isinstance(s, ast.Raise):
@@ -260,6 +305,8 @@ class ConstEval:
                 return t
             if e.id in ("int", "float", "complex", "bool", "str"):
                 return {"int": int, "float": float, "complex": complex, "bool": bool, "str": str}[e.id]
+            if isinstance(t, str) and t in EXTERNAL_VALUES:
+                return EXTERNAL_VALUES[t]
             raise NotConst("name %s is not a constant here" % e.id)
         if isinstance(e, (ast.List, ast.Tuple)):
             vs = [self.expr(x, env, f, depth) for x in e.elts]
@@ -391,6 +438,33 @@ class ConstEval:
         kwargs = lambda: {k.arg: self.expr(k.value, env, f, depth) for k in e.keywords if k.arg is not None}
         if any(isinstance(a, ast.Starred) for a in e.args) or any(k.arg is None for k in e.keywords):
             raise NotConst("star arguments")
+        # library functions reached through the module's imports (whatever the local alias)
+        ext = self._external(fn, env, f)
+        if ext is not None:
+            mod, _, a = ext.rpartition(".")
+            if mod == "numpy":
+                return self.numpy_call(a, args(), kwargs())
+            if mod == "math" and a in MATH_FUNCS:
+                return MATH_FUNCS[a](*args())
+            if ext == "itertools.product":
+                kw = kwargs()
+                return list(itertools.product(*[list(_iterate(x)) for x in args()], repeat=kw.get("repeat", 1)))
+            if ext in ("copy.copy", "copy.deepcopy"):
+                v = args()[0]
+                return v.copy() if isinstance(v, np.ndarray) else (list(v) if isinstance(v, list) else v)
+            if ext == "functools.reduce":
+                vs = args()
+                if len(vs) in (2, 3) and callable(vs[0]) and vs[0] in (_operator.add, _operator.mul, _operator.sub):
+                    it = list(_iterate(vs[1]))
+                    if len(vs) == 3:
+                        it = [vs[2]] + it
+                    if not it:
+                        raise NotConst("reduce of an empty sequence")
+                    acc = it[0]
+                    for x in it[1:]:
+                        acc = vs[0](acc, x)
+                    return acc
+                raise NotConst("reduce with a function outside the modelled ones")
         # numpy / math / itertools module functions
         if isinstance(fn, ast.Attribute) and isinstance(fn.value, ast.Name) and fn.value.id not in env:
             m, a = fn.value.id, fn.attr
@@ -439,6 +513,13 @@ class ConstEval:
                     raise
                 except Exception as ex:
                     raise NotConst("method %s fails on the constants: %s" % (fn.attr, ex))
+        if isinstance(fn, ast.Attribute) and fn.attr in ("join", "split", "startswith", "endswith", "replace", "lower", "upper", "strip", "format"):
+            recv = self.expr(fn.value, env, f, depth)
+            if isinstance(recv, str):
+                vs = args()
+                if fn.attr == "join":
+                    vs = [list(_iterate(vs[0]))]
+                return getattr(recv, fn.attr)(*vs, **kwargs())
         if isinstance(fn, ast.Attribute) and fn.attr in ("append", "count", "index", "extend"):
             recv = self.expr(fn.value, env, f, depth)
             if isinstance(recv, list):
@@ -452,10 +533,25 @@ class ConstEval:
             callee = FuncRef(t) if isinstance(t, Func) else t
         if isinstance(callee, FuncRef):
             return self.call(callee.func, args(), kwargs(), depth + 1)
+        if isinstance(callee, Closure):
+            return self.call(callee.func, args(), kwargs(), depth + 1, captured=callee.env)
         if isinstance(callee, Class) and callee.name in ("MatrixBasis", "SparseMatrixBasis"):
             vs = args()
             return BasisVal(vs[0])
         raise NotConst("call outside the constant fragment: %s" % unparse(e)[:80])
+
+    def _external(self, fn, env, f):
+        from .index import dotted
+        d = dotted(fn)
+        if d is None:
+            return None
+        head = d.split(".")[0]
+        if head in env:
+            return None
+        t = self.ix.scope_lookup(f.module, f, head)
+        if isinstance(t, str):
+            return t + d[len(head):]
+        return None
 
     def numpy_call(self, a, args, kwargs):
         try:
